@@ -742,6 +742,12 @@ func (s *Store[K, V]) drainWrite() {
 		}
 		s.sinkWrite(item)
 	}
+	// cost updates of one entry can arrive out of order, so an entry's policy
+	// cost can be transiently lower than its real cost; when such an entry is
+	// removed the total rises without any insert that would trigger eviction
+	if s.policy.weightedSize > s.policy.capacity {
+		s.policy.EvictEntries()
+	}
 
 	s.writeBuffer = s.writeBuffer[:0]
 	if wait {
